@@ -727,6 +727,35 @@ func panicOnlyIf(a *Analysis, fn *ssa.Function, about *Term, axioms [][]int32, l
 	return n, ok
 }
 
+// panicOnlyIfCond: panicOnlyIf with the deciding tests selected by a predicate on the condition term.
+func panicOnlyIfCond(a *Analysis, fn *ssa.Function, sel func(ct *Term) bool, axioms [][]int32, lits ...int32) (int, bool) {
+	tb := a.tb
+	n, ok := 0, true
+	for _, b := range fn.Blocks {
+		if _, isPanic := b.Instrs[len(b.Instrs)-1].(*ssa.Panic); !isPanic {
+			continue
+		}
+		for _, p := range b.Preds {
+			ifi, isIf := p.Instrs[len(p.Instrs)-1].(*ssa.If)
+			if !isIf {
+				continue
+			}
+			if !sel(tb.Term(tb.root, ifi.Cond)) {
+				continue
+			}
+			st := a.edgeState(tb.root, p, b)
+			if st == nil {
+				continue
+			}
+			n++
+			if !a.entails(st, axioms, lits...) {
+				ok = false
+			}
+		}
+	}
+	return n, ok
+}
+
 // returnsOnlyIf: like panicOnlyIf for a boolean answer: every feasible edge on
 // which the root function answers the constant val, decided by a test that
 // mentions all the given terms, carries a state entailing one of lits.
